@@ -218,3 +218,11 @@ func httpDate(t time.Time) string { return t.UTC().Format(http.TimeFormat) }
 func bufioReader(s string) *bufio.Reader { return bufio.NewReader(strings.NewReader(s)) }
 
 func bufioConn(c net.Conn) *bufio.Reader { return bufio.NewReader(c) }
+
+func mustRequest(raw string) *http.Request {
+	r, err := http.ReadRequest(bufioReader(raw))
+	if err != nil {
+		panic(err)
+	}
+	return r
+}
